@@ -35,6 +35,8 @@ def gen_hist(rng, nops):
                 toks.append(rng.choice(["rq:%d", "rq:%d", "rm:%d", "rm:%d", "RA:%d"]) % b)
             else:
                 toks.append(rng.choice(["rq:%d", "rm:%d"]) % b)
+        elif k < 0.52:
+            toks.append(rng.choice(["st:%d:%d" % (b, rng.randrange(1, 9)), "gs:%d" % b, "gs:%d" % b]))
         elif k < 0.6:
             t = rng.choice(T.TABLES)
             toks.append("g%s:%d:%d" % (t, b, rng.randrange(6)))
@@ -78,6 +80,7 @@ def check(run):
     # and keeps reading after its source is gone
     cases.append(["new:0", "iq:0:1", "iq:0:2", "im:0:7", "im:0:8", "im:0:9", "ia:0:3", "ia:0:3", "ia:0:5", "cp:1:0:cc", "rq:1", "rm:1", "rm:1",
                   "new:2", "im:2:4", "im:2:5", "cp:1:2:ca", "rm:1", "rm:1", "rm:1", "rq:1", "cp:3:0:cc", "del:0", "RA:3", "rq:3", "rq:3", "rq:3", "rm:3"])
+    cases.append(["new:0", "st:0:7", "new:1", "cp:0:1:ca", "gs:0", "new:2", "st:2:3", "cp:3:2:cc", "gs:3", "cp:3:1:ma", "gs:3", "w:3", "w:1"])
     cases.append(["new:0", "ia:0:1", "ia:0:2", "ia:0:2", "iq:0:6", "cp:1:0:mc", "cp:2:1:cc", "RA:1", "del:1", "RA:2", "RA:2", "rq:2", "w:2", "w:0"])
     compare(run, cases, seen, "copy")
 
